@@ -6,15 +6,14 @@
    (Spec/TargetCore.v).  Lemmas: Proofs/GenericPath.v, GenericFrame.v, GenericDelivery.v,
    GenericReply.v, GenericTime.v.
 
-   The faithful model FALSIFIES two clauses of the statement at full strength (both reproduced on
-   the real code, known_findings/C14.jsonl):
-     - delivery: an Unconnected Send WITHOUT a route (route_path False / [] / b"") lacks the
-       mandatory route fields and is rejected by the target: [C14_guard], shown exact.  (The former
-       finding F13 — the DEFAULT route_path=True appended the connection route on direct UCMM — was
-       repaired in /repo 1007c7c: [C14_default_route_delivered].  An EXPLICITLY given route on direct
-       UCMM is outside the domain — no route can be asked for without an Unconnected Send — and is
-       appended to the data by design: [C14_explicit_ucmm_route_appended].)
-     - time: beyond datetime.max get_plc_time raises OverflowError ([C14_time_guard]). *)
+   The three findings this vertical reproduced on the real code were repaired in /repo and the model
+   follows the repaired code (known_findings/C14.jsonl, `fixed:` lines):
+     1007c7c  the DEFAULT route_path=True appended the connection route on direct UCMM  [C14_default_route_delivered]
+     960b320  an Unconnected Send without a route lacked the mandatory route fields     [C14_no_route_delivered]
+     9084804  get_plc_time raised OverflowError beyond datetime.max                      [C14_time_holds]
+   Outside the domain, by design: an EXPLICITLY given route on direct UCMM is appended to the request
+   data (the library's Forward Open / Forward Close put their connection path there) — no route can
+   be asked for without an Unconnected Send: [C14_explicit_ucmm_route_appended]. *)
 From Coq Require Import String ZifyBool.
 From PV Require Import Base.Bytes Base.BytesLemmas Base.Res Base.Proto Base.PyStr.
 From PV Require Import Gen.PathTables Gen.Consts Gen.GenericFacts Model.EnumMapDefs Model.Path Model.Generic.
@@ -40,33 +39,13 @@ Definition C14_full : Prop :=
   forall d a svc rt, C14_domain d a svc rt ->
     exists d' fr, gm_request d a = (d', Done fr) /\ spec_extract fr = Some (asked d a svc rt).
 
-(* the excluded input class: an Unconnected Send asked for WITHOUT a route (route_path False / [] / b"") *)
-Definition C14_guard (a : gm_args) (rt : bytes) : bool :=
-  negb (a_connected a) && a_ucsend a && match rt with [] => true | _ => false end.
-
-Lemma C14_guard_delivery d a svc rt : C14_domain d a svc rt -> C14_guard a rt = delivery_guard a rt.
+Theorem C14_holds : C14_full.
 Proof.
-  intros [W Hu]. unfold C14_guard, delivery_guard.
-  destruct (a_connected a) eqn:Hc; [reflexivity |]. destruct (a_ucsend a) eqn:Hs; cbn [negb andb]; [reflexivity |].
-  rewrite (Hu eq_refl eq_refl). reflexivity.
+  intros d a svc rt [W Hu]. apply delivered_verbatim; [exact W |].
+  unfold delivery_guard. destruct (a_connected a) eqn:Hc; [reflexivity |].
+  destruct (a_ucsend a) eqn:Hs; [reflexivity |]. rewrite (Hu eq_refl eq_refl). reflexivity.
 Qed.
-
-Theorem C14_guarded : forall d a svc rt, C14_domain d a svc rt -> C14_guard a rt = false ->
-  exists d' fr, gm_request d a = (d', Done fr) /\ spec_extract fr = Some (asked d a svc rt).
-Proof.
-  intros d a svc rt D G. rewrite (C14_guard_delivery d a svc rt D) in G. destruct D as [W _].
-  apply delivered_verbatim; assumption.
-Qed.
-Print Assumptions C14_guarded.
-
-(* the guard is exactly the class on which the target is NOT asked what the caller asked *)
-Theorem C14_guard_exact : forall d a svc rt, C14_domain d a svc rt -> C14_guard a rt = true ->
-  exists d' fr, gm_request d a = (d', Done fr) /\ spec_extract fr <> Some (asked d a svc rt).
-Proof.
-  intros d a svc rt D G. rewrite (C14_guard_delivery d a svc rt D) in G. destruct D as [W _].
-  apply delivery_guard_exact; assumption.
-Qed.
-Print Assumptions C14_guard_exact.
+Print Assumptions C14_holds.
 
 (* outside the domain, by design: an EXPLICITLY given route on direct UCMM is appended after the
    request data (the library's Forward Open / Forward Close calls put their connection path there) *)
@@ -80,19 +59,30 @@ Proof. exact ucmm_route_appended. Qed.
 Print Assumptions C14_explicit_ucmm_route_appended.
 
 (* the default route_path=True on direct UCMM resolves to NO route (the connection's route is used
-   only inside an Unconnected Send): such calls are in the domain, never guarded, and delivered *)
+   only inside an Unconnected Send): such calls are in the domain and delivered *)
 Theorem C14_default_route_delivered : forall d a svc rt,
   wf_call d a svc rt -> a_connected a = false -> a_ucsend a = false -> a_route a = default_route ->
-  rt = [] /\ C14_domain d a svc rt /\ C14_guard a rt = false
+  rt = [] /\ C14_domain d a svc rt
   /\ exists d' fr, gm_request d a = (d', Done fr) /\ spec_extract fr = Some (asked d a svc rt).
 Proof.
   intros d a svc rt W Hc Hu Hr. destruct (wf_route _ _ _ _ W Hc) as [Hrt _].
   rewrite Hr, Hu in Hrt. change default_route with RTrue in Hrt. cbn [resolve_route] in Hrt. injection Hrt as <-.
-  assert (G : C14_guard a [] = false) by (unfold C14_guard; rewrite Hc, Hu; reflexivity).
   assert (D : C14_domain d a svc []) by (split; [exact W | reflexivity]).
-  split; [reflexivity |]. split; [exact D |]. split; [exact G |]. apply C14_guarded; assumption.
+  split; [reflexivity |]. split; [exact D |]. apply C14_holds; assumption.
 Qed.
 Print Assumptions C14_default_route_delivered.
+
+(* an Unconnected Send asked for WITHOUT a route (route_path False / [] / b""): the embedded request is
+   delivered through a wrapper whose route path is empty (size 0, reserved 0) *)
+Theorem C14_no_route_delivered : forall d a svc,
+  wf_call d a svc [] -> a_connected a = false -> a_ucsend a = true ->
+  exists d' fr, gm_request d a = (d', Done fr) /\ spec_extract fr = Some (asked d a svc [])
+    /\ dl_mode (asked d a svc []) = MUcsend 10 5 [].
+Proof.
+  intros d a svc W Hc Hu. destruct (delivered_ucsend_noroute d a svc W Hc Hu) as (d' & fr & H1 & H2).
+  exists d', fr. split; [exact H1 |]. split; [exact H2 |]. unfold asked. rewrite Hc, Hu. reflexivity.
+Qed.
+Print Assumptions C14_no_route_delivered.
 
 (* ---- witnesses *)
 Definition d_ex (path : list seg) : drv :=
@@ -114,28 +104,15 @@ Ltac wf_concrete :=
   | first [intros H; vm_compute in H; discriminate H | intros _ H; vm_compute in H; discriminate H
           | intros _ _ [H _]; vm_compute in H; discriminate H] ].
 
-(* an Unconnected Send asked for without a route *)
-Example wf_witness : wf_call (d_ex [bp 2]) (a_ex false true RFalse [97; 98; 99]) 75 [].
+(* the former 960b320 witness: an Unconnected Send asked for without a route *)
+Example wf_noroute : wf_call (d_ex [bp 2]) (a_ex false true RFalse [97; 98; 99]) 75 [].
 Proof. wf_concrete. Qed.
-
-Lemma domain_witness : C14_domain (d_ex [bp 2]) (a_ex false true RFalse [97; 98; 99]) 75 [].
-Proof. split; [exact wf_witness | intros _ H; discriminate H]. Qed.
-
-Theorem C14_full_refuted : ~ C14_full.
-Proof.
-  intros H. destruct (H _ _ _ _ domain_witness) as (d1 & fr1 & Hg1 & He1).
-  destruct (C14_guard_exact _ _ _ _ domain_witness eq_refl) as (d2 & fr2 & Hg2 & He2).
-  rewrite Hg1 in Hg2. injection Hg2 as _ <-. contradiction.
-Qed.
-Print Assumptions C14_full_refuted.
-
-(* on that witness the target's Unconnected Send unwrapper stops at rule 5 (route size / reserved byte missing) *)
-Example witness_rejected :
+Example noroute_now_delivered :
   exists fr, snd (gm_request (d_ex [bp 2]) (a_ex false true RFalse [97; 98; 99])) = Done fr
-    /\ spec_extract fr = None /\ spec_reject_code fr = 305.
-Proof. eexists. repeat split; vm_compute; reflexivity. Qed.
+    /\ option_map (fun dl => (dl_mode dl, dl_data dl)) (spec_extract fr) = Some (MUcsend 10 5 [], [97; 98; 99]).
+Proof. eexists. split; vm_compute; reflexivity. Qed.
 
-(* the other guarded class: an explicit route on direct UCMM arrives as request data after "abc" *)
+(* outside the domain: an explicit route on direct UCMM arrives as request data after "abc" *)
 Example witness_explicit_route :
   exists fr, snd (gm_request (d_ex []) (a_ex false false (RStr (T "bp/3")) [97; 98; 99])) = Done fr
     /\ option_map dl_data (spec_extract fr) = Some [97; 98; 99; 1; 0; 1; 3].
@@ -173,13 +150,17 @@ Example wf_ucsend_hops :
        a_route := RStr (T "bp/1/enet/10.0.0.5") |}
     14 [6; 0; 1; 1; 18; 8; 49; 48; 46; 48; 46; 48; 46; 53].
 Proof. wf_concrete. Qed.
-Example guarded_examples :
-  C14_guard (a_ex true false default_route [1; 2; 3]) [] = false
-  /\ C14_guard (a_ex false false RFalse [1; 2]) [] = false
-  /\ C14_guard (a_ex false true default_route [1; 2; 3]) [1; 0; 1; 2] = false
-  /\ C14_guard (a_ex false false default_route [97; 98; 99]) [] = false
-  /\ C14_guard (a_ex false true RFalse [97]) [] = true.
-Proof. repeat split. Qed.
+Example domain_examples :
+  C14_domain (d_ex [bp 2]) (a_ex true false default_route [1; 2; 3]) 75 []
+  /\ C14_domain (d_ex [bp 2]) (a_ex false false default_route [1; 2]) 75 []
+  /\ C14_domain (d_ex [bp 2]) (a_ex false true default_route [1; 2; 3]) 75 [1; 0; 1; 2]
+  /\ C14_domain (d_ex [bp 2]) (a_ex false true RFalse [97; 98; 99]) 75 [].
+Proof.
+  split; [split; [exact wf_connected | reflexivity] |].
+  split; [split; [exact wf_ucmm_default | reflexivity] |].
+  split; [split; [exact wf_ucsend_slot | intros _ H; discriminate H] |].
+  split; [exact wf_noroute | reflexivity].
+Qed.
 
 (* ================================================================ 2. the answer is returned *)
 (* On the reply frame the target builds for general status 0 (either transport): the Tag's value is
@@ -224,32 +205,26 @@ Example reply_examples :
 Proof. split; vm_compute; reflexivity. Qed.
 
 (* ================================================================ 3. the time written is the time reported *)
-Definition time_tag_of (us : Z) : res time_tag := Ok {| tt_microseconds := Some us; tt_error := None |}.
-
-(* at full strength: every ULINT microsecond count *)
+(* every ULINT microsecond count: set_plc_time(us) makes the target's clock object hold us and
+   get_plc_time reads us back from that object's reply (beyond datetime.max without the datetime /
+   string renderings) *)
 Definition C14_time_full : Prop :=
   forall d (b : basic_state) us,
     drv_ok d = true -> d_connected d = true -> 1 <= d_seq d <= 65535 -> 0 <= us < U64 ->
-    clock_roundtrip d b us /\ time_result us = time_tag_of us.
+    clock_roundtrip d b us
+    /\ exists dt, time_result us = Ok {| tt_microseconds := Some us; tt_datetime := dt; tt_error := None |}.
 
-Definition C14_time_guard (us : Z) : bool := datetime_max_us <? us.
-
-Theorem C14_time_guarded : forall d (b : basic_state) us,
-  drv_ok d = true -> d_connected d = true -> 1 <= d_seq d <= 65535 -> 0 <= us < U64 ->
-  C14_time_guard us = false ->
-  clock_roundtrip d b us /\ time_result us = time_tag_of us.
+Theorem C14_time_holds : C14_time_full.
 Proof.
-  intros d b us Hd Hc Hs Hu Hg. split; [apply time_roundtrip; assumption |].
-  unfold time_result, time_tag_of, C14_time_guard in *. replace (us <=? datetime_max_us) with true by lia. reflexivity.
+  intros d b us Hd Hc Hs Hu. split; [apply time_roundtrip; assumption |]. eexists. reflexivity.
 Qed.
-Print Assumptions C14_time_guarded.
+Print Assumptions C14_time_holds.
 
-Theorem C14_time_full_refuted : ~ C14_time_full.
-Proof.
-  intros H. destruct (H (d_ex []) init_basic (2 ^ 63) eq_refl eq_refl ltac:(cbn; lia) ltac:(unfold U64; lia)) as [_ Hr].
-  vm_compute in Hr. discriminate.
-Qed.
-Print Assumptions C14_time_full_refuted.
+Definition time_tag_of (us : Z) : res time_tag := Ok {| tt_microseconds := Some us; tt_datetime := true; tt_error := None |}.
+
+Example time_beyond_datetime_max :
+  time_result (2 ^ 63) = Ok {| tt_microseconds := Some (2 ^ 63); tt_datetime := false; tt_error := None |}.
+Proof. reflexivity. Qed.
 
 (* ================================================================ the pieces fit the target's state machine *)
 (* a concrete run through [tstep] (the state of Proofs/TargetCoreP.v: session registered, Large
